@@ -292,11 +292,24 @@ def cases(tier, rng):
                     if op in ("count_overlap", "intersect") and not dj:
                         continue
                     yield {"op": op, "a": A, "b": B, "size": S}
-                if S <= 4 and A and B:
+                if S <= (5 if big else 4) and A and B:
                     ch = [{"size": S, "a": sorted(A), "b": sorted(B)}]
                     yield {"op": "jaccard", "chroms": ch}
                     yield {"op": "forbes", "chroms": ch}
                     yield {"op": "geo_jaccard", "chroms": ch}
+    # pairs where one operand has three intervals (sampled)
+    for _ in range(6000 if big else 300):
+        S = rng.choice([3, 4, 5, 6])
+        pool = _ivs(S)
+        A = sorted(rng.choice(pool) for _ in range(3))
+        B = sorted(rng.choice(pool) for _ in range(rng.choice([1, 2, 3])))
+        if rng.random() < 0.5:
+            A, B = B, A
+        A, B = [list(x) for x in A], [list(x) for x in B]
+        for op in PAIR_OPS:
+            if op in ("count_overlap", "intersect") and not (_disjoint(A) and _disjoint(B)):
+                continue
+            yield {"op": op, "a": A, "b": B, "size": S}
     # a few nested / duplicated operands for the two restricted functions (outside the domain: recorded as skipped)
     for A, B in [([[0, 3], [1, 2]], [[0, 1]]), ([[0, 2], [0, 2]], [[1, 3]]), ([[0, 1]], [[0, 2], [1, 3]])]:
         yield {"op": "count_overlap", "a": A, "b": B, "size": 3}
